@@ -115,6 +115,20 @@ func genUnmarshal(tier string, seed uint64) {
 			emit("unmarshal 90 %d %s", tid(t), in)
 		}
 	}
+	//     ... and a union whose member is a union: refused at the member's key, served for its plain member; both through
+	//     the STATEFUL model of the unmarshaller (which has the code's rows and gets stuck exactly where the code refuses)
+	uzo := tid(reflect.TypeOf((*UzOuter)(nil)).Elem())
+	for _, in := range []string{"{1,s75,{1,s63,{1,s72,i1,},},}", "{1,s63,{1,s72,i5,},}", "{1,s75,0,}", "{1,s78,0,}", "0", "{0,}", "{1,s75,{0,},}", "{-1,s63,{0,},}"} {
+		emit("unmarshalr 90 %d %s", uzo, in)
+	}
+	for _, in := range []string{"{1,s63,{1,s72,i5,},}", "{1,s78,0,}", "0", "{0,}", "{-1,s63,{0,},}"} {
+		emit("unmarshalm 90 %d %s", uzo, in)
+	}
+	for _, t := range []reflect.Type{reflect.TypeOf(ChT{}), reflect.TypeOf(ChU{}), reflect.TypeOf(ChW{}), reflect.TypeOf((*ChW)(nil)), reflect.TypeOf((*ChU)(nil)), reflect.TypeOf([]ChU{})} {
+		for _, in := range []string{"s61", "0", "[1,s61,]", "[0,]", "i5"} {
+			emit("unmarshalm 90 %d %s", tid(t), in)
+		}
+	}
 	// 1b. a repeated map key must be refused whatever its length (short, around one machine word of bits, long)
 	for _, n := range []int{1, 7, 31, 32, 33, 63, 64, 65, 100, 300, 5000} {
 		key := "s" + strings.Repeat("6b", n)
@@ -156,6 +170,8 @@ func genUnmarshal(tier string, seed uint64) {
 					continue
 				}
 				emit("unmarshal %d %d %s", aid, tid(t), strings.Join(toks, ","))
+				// the same, and its mutations below, also through the stateful model of the unmarshaller
+				emit("unmarshalm %d %d %s", aid, tid(t), strings.Join(toks, ","))
 				if aid == 3 && t == reflect.TypeOf(Emb{}) {
 					// the key this mapping declares as IGNORED, with values of every shape, at every entry position
 					for _, it := range insertEntries(toks, "s6c6567616379", ignoredValues) {
@@ -166,6 +182,9 @@ func genUnmarshal(tier string, seed uint64) {
 					mt := mutateToks(r, toks)
 					if len(mt) > 0 && len(mt) <= 120 {
 						emit("unmarshal %d %d %s", aid, tid(t), strings.Join(mt, ","))
+						if m == 0 {
+							emit("unmarshalm %d %d %s", aid, tid(t), strings.Join(mt, ","))
+						}
 					}
 				}
 			}
@@ -1084,6 +1103,7 @@ func genHist(tier string, seed uint64) {
 			n := 12
 			for k := 0; k < n; k++ {
 				emit("hist json M|1|%d|%s|%d;M|1|%d|%s;M|1|%d|[I%d:i7]", tid(ifsl), vd, k, tid(ifsl), vd, tid(ifsl), tid(intT))
+				emit("hist json M|1|%d|%s|%d;M|1|%d|[I%d:i7];M|1|%d|[I%d:i8]", tid(ifsl), vd, k, tid(ifsl), tid(intT), tid(ifsl), tid(intT))
 			}
 			emit("hist json M|1|%d|%s;M|1|%d|[I%d:i7];M|1|%d|%s;M|1|%d|[I%d:i8]", tid(ifsl), vd, tid(ifsl), tid(intT), tid(ifsl), vd, tid(ifsl), tid(intT))
 		}
